@@ -6,6 +6,8 @@ import (
 	"context"
 	"errors"
 	"fmt"
+	"runtime"
+	"strings"
 	"sync"
 	"sync/atomic"
 	"time"
@@ -623,6 +625,7 @@ type directEnv struct {
 	ops      []rec.V
 	aborted  bool
 	lastNow  time.Time
+	joinBase int
 }
 
 func (e *directEnv) internKey(k keys.Key) int {
@@ -803,6 +806,17 @@ func (e *directEnv) opBg(id int) {
 		if owner, ok := e.inflight[li.q.keyID]; ok && owner != 0 {
 			li.waiting = owner - 1
 			expectEvent = false
+			// wait until the goroutine is really blocked inside singleflight.Do, so that the order
+			// "joined, then the owner finished" is not left to the scheduler
+			want := e.joinBase
+			for _, x := range e.iters {
+				if x.waiting >= 0 && !x.bgDone {
+					want++
+				}
+			}
+			if !waitJoiners(want) {
+				e.abort()
+			}
 		} else {
 			e.inflight[li.q.keyID] = id + 1
 		}
@@ -834,6 +848,32 @@ func (e *directEnv) opBg(id int) {
 		}
 	}
 	e.ops = append(e.ops, rec.L(rec.I(4), rec.I(id), res, rec.I(ev), rec.LI(finished), e.mask()))
+}
+
+// countJoiners: goroutines blocked in singleflight.Do waiting for another caller's result.
+var stackBuf = make([]byte, 8<<20)
+
+func countJoiners() int {
+	buf := stackBuf
+	n := runtime.Stack(buf, true)
+	c := 0
+	for _, g := range strings.Split(string(buf[:n]), "\n\n") {
+		if strings.Contains(g, "singleflight.(*Group).Do") && strings.Contains(g, "sync.(*WaitGroup).Wait") {
+			c++
+		}
+	}
+	return c
+}
+
+func waitJoiners(want int) bool {
+	deadline := time.Now().Add(waitLimit)
+	for countJoiners() < want {
+		if time.Now().After(deadline) {
+			return false
+		}
+		runtime.Gosched()
+	}
+	return true
 }
 
 func (e *directEnv) opInval(marker int, when int) {
@@ -890,6 +930,7 @@ func genScript(r *rec.Rand) []int {
 func runDirect(w *rec.Writer, d caseDesc) {
 	r := rec.NewRand(mix(d.Seed, 1, d.Idx))
 	e := &directEnv{r: r, keyIDs: map[string]int{}, markIDs: map[string]int{}, inflight: map[int]int{}}
+	e.joinBase = countJoiners()
 	e.variant = 1 + r.Intn(2)
 	if e.variant == 1 {
 		e.max = rec.Pick(r, []int{0, 1, 2, 3, 3, 4, 5, 6, 8, 100, 100})
